@@ -57,15 +57,33 @@ def gen_ops(tier, rng):
         if d * p * size > 4_000_000:
             size = rng.choice(SIZES_SMALL)
         ops.append((f"upd {rng.choice(OPTSETS)} {d} {p} {size} {rng.randrange(1, 1<<30)} {lst(S)} {lst(nils)}", {"cat": "upd-seeded", "d": d}))
+    # empty but non-nil entries in newDatashards mean "not changed" (regression of fix 6e0b732)
+    for _ in range(40 if tier == "quick" else 500):
+        d = rng.randint(2, 10); p = rng.randint(1, 4)
+        S = sorted(rng.sample(range(d), rng.randint(1, d - 1)))
+        rest = [c for c in range(d) if c not in S]
+        empt = sorted(rng.sample(rest, rng.randint(1, len(rest))))
+        ops.append((f"upd {rng.choice(OPTSETS)} {d} {p} {rng.choice(SIZES_SMALL + [2000, 5000])} {rng.randrange(1, 1<<30)} {lst(S)} - e:{lst(empt)}",
+                    {"cat": "upd-empty-entry", "d": d}))
     # mismatching sizes must be rejected
     for (size, nl) in [(100, 300), (300, 100), (100, 101), (100, 99), (64, 128), (128, 64), (1000, 1063), (4096, 4296), (100, 163), (163, 100)]:
         for o in ["-", "nosimd", "g=4,ms=64"]:
             ops.append((f"upd {o} 4 2 {size} 5 1 - {nl}", {"cat": "upd-mismatch", "d": 4}))
+    # several changed shards of which a LATER one has the wrong size (the first is fine)
+    for _ in range(60 if tier == "quick" else 1000):
+        d = rng.randint(3, 10); p = rng.randint(1, 4)
+        S = sorted(rng.sample(range(d), rng.randint(2, d)))
+        bad = rng.choice(S[1:])
+        size = rng.choice([64, 100, 1000, 5000])
+        nl = rng.choice([1, size - 1, size + 1, size // 2, size + 64, 2 * size])
+        ops.append((f"upd {rng.choice(['-', 'g=1', 'nosimd', 'ms=64,g=4'])} {d} {p} {size} {rng.randrange(1, 1<<30)} {lst(S)} - l:{bad}:{nl}",
+                    {"cat": "upd-later-mismatch", "d": d}))
     return ops
 
 
 def corpus_ops():
-    return [("upd - 4 2 100 5 1 - 300", {"cat": "corpus", "d": 4}), ("upd - 4 2 300 5 1 - 100", {"cat": "corpus", "d": 4})]
+    return [("upd - 4 2 100 5 1 - 300", {"cat": "corpus", "d": 4}), ("upd - 4 2 300 5 1 - 100", {"cat": "corpus", "d": 4}),
+            ("upd - 5 3 1000 5 1 - e:3", {"cat": "corpus", "d": 5}), ("upd g=1 5 3 1000 5 1 - e:3", {"cat": "corpus", "d": 5})]
 
 
 def flag_check(line, meta, flags):
